@@ -19,8 +19,8 @@ NOW.  In the model this is by construction (`exportDatatype` takes the tree); `r
 records every description on the way, the harness runs the same steps on one real object.
 
 Not modelled: `scale` of a `ScaledInteger` (its `setProperty` override), `set_name` of an enum (not exported), derived
-classes (`LimitsType(m)` holds the SAME member object twice), values of another kind than the property's (the generator
-gives floats to float properties, integers to integer properties).
+classes (`LimitsType(m)` holds the SAME member object twice), floats given to integer properties (integers, booleans
+and strings given to float properties are: `PropVal.asNum`).
 -/
 namespace Frappy.Datatypes
 open FloatOps
@@ -70,20 +70,34 @@ def lenVal (limit : Int) (i : Int) : Except Err Nat :=
 def numVal (nonNegative : Bool) (x : F) : Except Err F :=
   if isFinite x && (!nonNegative || DType.nonneg x) then .ok (addZero x) else .error progErr
 
+/-- what the datatype of a float property (`FloatRange`) makes of the value given: `value += 0.0` turns integers and
+booleans into floats, strings are refused -/
+def PropVal.asNum : PropVal F → Option F
+  | .num x => some x
+  | .int i => ofInt i
+  | .bool b => ofInt (if b then 1 else 0)
+  | .str _ => none
+
+/-- a float property given any value -/
+def numProp (nonNegative : Bool) (v : PropVal F) : Except Err F :=
+  match v.asNum with
+  | some x => numVal nonNegative x
+  | none => .error progErr
+
 /-- `node.setProperty(key, value)` (validated by the datatype of the property; an array hands foreign keys to its members) -/
 def setProp : DInfo F → String → PropVal F → Except Err (DInfo F)
-  | .double _ mx ar rr u f, "min", .num x => do return .double (← numVal false x) mx ar rr u f
-  | .double mn _ ar rr u f, "max", .num x => do return .double mn (← numVal false x) ar rr u f
-  | .double mn mx _ rr u f, "absolute_resolution", .num x => do return .double mn mx (← numVal true x) rr u f
-  | .double mn mx ar _ u f, "relative_resolution", .num x => do return .double mn mx ar (← numVal true x) u f
+  | .double _ mx ar rr u f, "min", x => do return .double (← numProp false x) mx ar rr u f
+  | .double mn _ ar rr u f, "max", x => do return .double mn (← numProp false x) ar rr u f
+  | .double mn mx _ rr u f, "absolute_resolution", x => do return .double mn mx (← numProp true x) rr u f
+  | .double mn mx ar _ u f, "relative_resolution", x => do return .double mn mx ar (← numProp true x) u f
   | .double mn mx ar rr _ f, "unit", .str s => .ok (.double mn mx ar rr s f)
   | .double mn mx ar rr u _, "fmtstr", .str s => .ok (.double mn mx ar rr u s)
   | .int _ mx, "min", .int i => if -DType.intLimit ≤ i ∧ i ≤ DType.intLimit then .ok (.int i mx) else .error progErr
   | .int mn _, "max", .int i => if -DType.intLimit ≤ i ∧ i ≤ DType.intLimit then .ok (.int mn i) else .error progErr
-  | .scaled s _ mx ar rr u f, "min", .num x => do return .scaled s (← numVal false x) mx ar rr u f
-  | .scaled s mn _ ar rr u f, "max", .num x => do return .scaled s mn (← numVal false x) ar rr u f
-  | .scaled s mn mx _ rr u f, "absolute_resolution", .num x => do return .scaled s mn mx (← numVal true x) rr u f
-  | .scaled s mn mx ar _ u f, "relative_resolution", .num x => do return .scaled s mn mx ar (← numVal true x) u f
+  | .scaled s _ mx ar rr u f, "min", x => do return .scaled s (← numProp false x) mx ar rr u f
+  | .scaled s mn _ ar rr u f, "max", x => do return .scaled s mn (← numProp false x) ar rr u f
+  | .scaled s mn mx _ rr u f, "absolute_resolution", x => do return .scaled s mn mx (← numProp true x) rr u f
+  | .scaled s mn mx ar _ u f, "relative_resolution", x => do return .scaled s mn mx ar (← numProp true x) u f
   | .scaled s mn mx ar rr _ f, "unit", .str x => .ok (.scaled s mn mx ar rr x f)
   | .scaled s mn mx ar rr u _, "fmtstr", .str x => .ok (.scaled s mn mx ar rr u x)
   | .string _ b u, "minchars", .int i => do return .string (← lenVal DType.intLimit i) b u
@@ -93,7 +107,9 @@ def setProp : DInfo F → String → PropVal F → Except Err (DInfo F)
   | .blob a _, "maxbytes", .int i => do return .blob a (← lenVal 16777216 i)
   | .array e _ b, "minlen", .int i => do return .array e (← lenVal 16777216 i) b
   | .array e a _, "maxlen", .int i => do return .array e a (← lenVal 16777216 i)
-  | .array e a b, key, v => do return .array (← setProp e key v) a b
+  | .array e a b, key, v =>
+    if key == "minlen" || key == "maxlen" then .error progErr      -- own property, value of another kind
+    else do return .array (← setProp e key v) a b
   | _, _, _ => .error progErr
 
 /-- `node.checkProperties()`: limits ordered, `'%'` in the format string; an array checks its members first -/
